@@ -335,6 +335,32 @@ func wireMatch(w *World, wc *wireCtx, r *Report) {
 			}
 		}
 	})
+	if !appends {
+		// the pairs are collected by a helper the visitor hands them to (a table builder with an add method)
+		seenF := map[*ssa.Function]bool{vmf: true}
+		work := []*ssa.Function{vmf}
+		for i := 0; i < len(work) && i < 12; i++ {
+			forEachInstr(work[i], func(_ *ssa.BasicBlock, ins ssa.Instruction) {
+				c, ok := ins.(ssa.CallInstruction)
+				if !ok {
+					return
+				}
+				if cv, isCall := ins.(*ssa.Call); isCall && work[i] != vmf {
+					if bi, ok := cv.Call.Value.(*ssa.Builtin); ok && bi.Name() == "append" {
+						if sl, ok := cv.Type().Underlying().(*types.Slice); ok && modelTypeName(sl.Elem()) == "MatchPair" {
+							appends = true
+						}
+					}
+				}
+				for _, g := range calleesOfAll(c) {
+					if g != nil && g.Blocks != nil && pkgOfFunc(g) == w.Parser && !seenF[g] && !strings.HasPrefix(g.Name(), "Visit") {
+						seenF[g] = true
+						work = append(work, g)
+					}
+				}
+			})
+		}
+	}
 	early := loopHasEarlyExit(vmf)
 	if usesAll && appends && !early {
 		r.pass(ruleExp, "every matchPair child contributes its pairs", w.pos(vmf.Pos()), "")
@@ -770,6 +796,46 @@ func loopHasEarlyExit(fn *ssa.Function) bool {
 }
 
 // textOfAccessor: v is GetText() of the named token accessor of a grammar context (or of a terminal node when "<terminal>" is allowed).
+// textOfRecordMember: every value stored, anywhere in the parser package, into member idx of the (non-model) record type t is such a
+// token text.
+func textOfRecordMember(w *World, t types.Type, idx int, ctxs map[string]*CtxInfo, allowed map[string]bool, depth int) bool {
+	if p, ok := t.Underlying().(*types.Pointer); ok {
+		t = p.Elem()
+	}
+	n := namedOf(t)
+	if n == nil || n.Obj().Pkg() == nil || n.Obj().Pkg().Path() != parserPath {
+		return false
+	}
+	stores, good := 0, true
+	for fn := range w.allFuncs {
+		if pkgOfFunc(fn) != w.Parser || fn.Blocks == nil {
+			continue
+		}
+		forEachInstr(fn, func(_ *ssa.BasicBlock, ins ssa.Instruction) {
+			st, ok := ins.(*ssa.Store)
+			if !ok {
+				return
+			}
+			fa, ok := st.Addr.(*ssa.FieldAddr)
+			if !ok || fa.Field != idx {
+				return
+			}
+			ft := fa.X.Type()
+			if p, ok := ft.Underlying().(*types.Pointer); ok {
+				ft = p.Elem()
+			}
+			if n2 := namedOf(ft); n2 == nil || n2.Obj() != n.Obj() {
+				return
+			}
+			stores++
+			if !textOfAccessor(w, st.Val, ctxs, allowed, depth+1) {
+				good = false
+			}
+		})
+	}
+	return stores > 0 && good
+}
+
 func textOfAccessor(w *World, v ssa.Value, ctxs map[string]*CtxInfo, allowed map[string]bool, depth int) bool {
 	if depth > 6 {
 		return false
@@ -844,6 +910,18 @@ func textOfAccessor(w *World, v ssa.Value, ctxs map[string]*CtxInfo, allowed map
 			if fv, ok := x.X.(*ssa.FreeVar); ok {
 				return textOfAccessor(w, fv, ctxs, allowed, depth+1)
 			}
+			// a member of a record of the parser's own that carries the text (keyToken.text): every value stored into that member
+			if fa, ok := x.X.(*ssa.FieldAddr); ok {
+				return textOfRecordMember(w, fa.X.Type(), fa.Field, ctxs, allowed, depth)
+			}
+		}
+		return false
+	case *ssa.Field:
+		return textOfRecordMember(w, x.X.Type(), x.Field, ctxs, allowed, depth)
+	case *ssa.Const:
+		// the zero text of a declaration that has no key token at all (not derivable from the grammar): not a token, not a rewrite
+		if s, ok := constString(x); ok && s == "" && depth > 0 {
+			return true
 		}
 		return false
 	case *ssa.Phi:
